@@ -137,6 +137,7 @@ def build(tier, repo):
                                           for n in cf.walk(c.funcs[fn]) if n.get("k") == "CallExpr")]
         nparse += len(fns)
         cw.signature_rule(r6, c, fns)
+        cw.parse_target_rule(r6, c, fns)
     chk.note_analysed("functions_with_parse_call", nparse)
     r6.require(120)
 
